@@ -130,7 +130,8 @@ func Input(l *InputSharedVars, g *GlobalVarsMain, hPath *HFilePath, driConfig *C
 					textureExists := false
 					for iTex := 0; iTex < len(l.ValidSoilTexture); iTex++ {
 						if currentSoil.BART[horizon] == l.ValidSoilTexture[iTex] {
-							textureExists = true
+							// listed in PARCAP.TRU; Hydro also needs the row of HYPAR.TRU
+							textureExists = FindTextureInHypar(currentSoil.BART[horizon], hPath.hypar, g.Session) != "not found"
 							break
 						}
 					}
